@@ -47,6 +47,9 @@ type dlCase struct {
 	// Sequential runs the scripts one after the other (a T whose Run does not return before the subtest is done,
 	// like the standalone command's): later scripts start when part of the time budget is already used up.
 	Sequential bool `json:"sequential,omitempty"`
+	// KeepWork: the work directories are kept (Params.WorkdirRoot) - the end of a script then takes another path
+	// through RunT's bookkeeping of the shared deadline context
+	KeepWork bool `json:"keep_work,omitempty"`
 }
 
 func grace(d time.Duration) time.Duration {
@@ -147,7 +150,7 @@ func runCase(c dlCase) (fail *vt.Fail, soft string) {
 	ch := make(chan done, 1)
 	t0 := time.Now()
 	go func() {
-		rr := tskit.RunInProcess(root, files, tskit.RunOpts{Params: testscript.Params{Cmds: r.Cmds()}, Parallel: !c.Sequential, Deadline: D})
+		rr := tskit.RunInProcess(root, files, tskit.RunOpts{Params: testscript.Params{Cmds: r.Cmds()}, Parallel: !c.Sequential, Deadline: D, Retain: c.KeepWork})
 		ch <- done{rr}
 	}()
 	var rr tskit.RunResult
@@ -338,6 +341,7 @@ func trunc(s string, n int) string {
 
 func genDeadline(t *rapid.T) dlCase {
 	c := dlCase{DeadlineMS: rapid.SampledFrom([]int{300, 400, 600, 900, 1500, 2200, 3000, 150, 50}).Draw(t, "deadline")}
+	c.KeepWork = rapid.IntRange(0, 2).Draw(t, "keepwork") == 1
 	if rapid.IntRange(0, 3).Draw(t, "sequential") == 0 {
 		// sequential T: scripts that use up 10-35% of the budget each, then one that blocks
 		c.Sequential = true
@@ -372,6 +376,9 @@ func TestDeadlines(t *testing.T) {
 		if c.Sequential {
 			cl = append(cl, "sequential-T")
 		}
+		if c.KeepWork {
+			cl = append(cl, "work-directories-kept")
+		}
 		for _, s := range c.Scripts {
 			cl = append(cl, "script="+s.Kind)
 		}
@@ -395,6 +402,9 @@ var scenarios = []dlCase{
 	// a deadline closer than two grace periods: the interrupt time is already past when the scripts start
 	{DeadlineMS: 120, Scripts: []scriptSpec{{Kind: "ignore-quit-inherited"}, {Kind: "block", Before: 1}}},
 	{DeadlineMS: 700, Scripts: []scriptSpec{{Kind: "bg-wait", Before: 1}, {Kind: "early"}}},
+	// kept work directories: a script that ends early must not disturb the ones still running
+	{DeadlineMS: 900, KeepWork: true, Scripts: []scriptSpec{{Kind: "early"}, {Kind: "block", Before: 1}, {Kind: "ignore-quit-inherited"}}},
+	{DeadlineMS: 1200, KeepWork: true, Sequential: true, Scripts: []scriptSpec{{Kind: "consume", EdgeMS: 15}, {Kind: "block"}}},
 }
 
 func TestScenarios(t *testing.T) {
